@@ -143,6 +143,41 @@ Fixpoint for_okb (cs : list tree) (st : nat) : bool :=
            end
   end.
 
+(* layout/chain.rs at the level of signatures: what the chain builder collects from the children of one field access *)
+Fixpoint sim_dot (cs : list tree) (seen : bool) : str :=
+  match cs with
+  | [] => []
+  | c :: r =>
+      if kind_eqb (kind_of c) KDot then [46] ++ sim_dot r true
+      else if is_comment_node c then tsig c ++ sim_dot r seen
+      else if kind_eqb (kind_of c) KSpace then sim_dot r seen
+      else if seen then (if kind_eqb (kind_of c) KIdent then tsig c else []) ++ sim_dot r seen
+      else sim_dot r seen
+  end.
+
+(* the binary chain's operator conversion with its `not` look-behind, at the level of signatures *)
+Definition bin_opsig (seen_not : bool) (k : kind) : bool * option str :=
+  if kind_eqb k KNot then (true, None)
+  else if kind_eqb k KIn && seen_not then (false, Some (sig (binop_as_str BNotIn)))
+  else match binop_from_kind k with
+       | Some o => (seen_not, Some (sig (binop_as_str o)))
+       | None => (seen_not, None)
+       end.
+Fixpoint sim_bin (cs : list tree) (seen_op seen_not : bool) : str * bool :=
+  match cs with
+  | [] => ([], seen_not)
+  | c :: r =>
+      let '(sn, oc) := bin_opsig seen_not (kind_of c) in
+      match oc with
+      | Some x => let '(y, f) := sim_bin r true sn in (x ++ y, f)
+      | None =>
+          if is_comment_node c then let '(y, f) := sim_bin r seen_op sn in (tsig c ++ y, f)
+          else if kind_eqb (kind_of c) KSpace then sim_bin r seen_op sn
+          else if seen_op then let '(y, f) := sim_bin r seen_op sn in ((if is_expr c then tsig c else []) ++ y, f)
+          else sim_bin r seen_op sn
+      end
+  end.
+
 Section NodeOk.
   (* per kind: the children a converter does not hand on carry no signature; see SigConv.v for the use of each clause *)
   Definition all_kept (kept : tree -> bool) (cs : list tree) : bool :=
@@ -198,13 +233,30 @@ Section NodeOk.
                            | _ => false end) cs
     | KClosure => closure_okb cs (match closure_name (Inner KClosure cs no_attrs) with Some _ => 0%nat | None => 1%nat end)
     | KForLoop => for_okb cs 0%nat
+    | KFieldAccess =>
+        match cs with
+        | e :: _ =>
+            is_expr e &&
+            str_eqb (tsigl cs) (tsig e ++ sim_dot cs false) &&
+            (existsb is_comment_node cs ||
+             str_eqb (sim_dot cs false) ([46] ++ tsig (field_access_field (Inner KFieldAccess cs no_attrs)))) &&
+            all_kept (fun c => kind_eqb (kind_of c) KDot || is_expr c) cs
+        | [] => false
+        end
+    | KBinary =>
+        match cs with
+        | e :: _ =>
+            is_expr e &&
+            str_eqb (tsigl cs) (tsig e ++ fst (sim_bin cs false false)) && negb (snd (sim_bin cs false false)) &&
+            all_kept (fun c => match binop_from_kind (kind_of c) with Some _ => true | None => is_expr c end) cs
+        | [] => false
+        end
     | KCode => true
     | KCodeBlock => lwalkb is_expr (flat_map (fun c => if kind_eqb (kind_of c) KCode then children c else [c]) cs) false
     | KArgs => args_ok cs && margs_ok cs
     | KFuncCall =>
         match find is_expr cs with
         | Some cal =>
-            negb (kind_eqb (kind_of cal) KFieldAccess) &&
             negb (match (if kind_eqb (kind_of cal) KIdent then Some (text_of cal) else None) with
                   | Some n => existsb (str_eqb n) TABLE_FUNCS | None => false end) &&
             str_eqb (tsigl cs) (tsig cal ++ match find (fun c => kind_eqb (kind_of c) KArgs) (rev cs) with Some a => tsig a | None => [] end)
